@@ -696,6 +696,19 @@ func (c *Cache) ServeDNS(ctx context.Context, ch *middleware.Chain) {
 			}
 			retryKey, retry := c.store.FailureRetryKey(req, clientScope)
 			if !retry {
+				// FailureRetryKey also reports false when the state turned
+				// ACTIVE after the LookupFailure above: the regrouped probe of
+				// this cohort recorded its failure in between. Such a late
+				// follower must consume that result, not leave the election
+				// and resolve upstream next to an active cached failure.
+				if failureProbe {
+					if hit, ok := c.store.LookupFailure(req, clientScope); ok {
+						c.metrics.Hit()
+						failureCacheHits.Inc()
+						c.handleFailureHit(ctx, ch, hit)
+						return
+					}
+				}
 				break
 			}
 			failureProbe = true
